@@ -534,6 +534,11 @@ fn check_worker(case: &Case) -> CaseResult {
             });
         }
     };
+    // one producer, no periodic flush: the order in which the worker merges is fully determined
+    // (guards dropped during a segment are sent at once, the segment's inputs at its flush), so
+    // keep-last can be judged per flush: the aggregate of a key carries the LAST value sent for it
+    let ordered = np == 1 && !periodic;
+    let mut seg_guard_last: BTreeMap<(String, u8), u32> = BTreeMap::new();
     for st in &case.steps {
         match st {
             Step::Input(i) => {
@@ -546,11 +551,16 @@ fn check_worker(case: &Case) -> CaseResult {
                     drop(i.item().close_and_merge(sink.clone()));
                     // a guard dropped by this thread before the flush below must be in it
                     all.entry(i.key()).or_default().add(&i);
+                    seg_guard_last.insert(i.key(), i.last);
                     classes.push("merge-on-drop-guard");
                 }
             }
             Step::Flush => {
                 run_segment(&segment, &sink);
+                let mut seg_last = std::mem::take(&mut seg_guard_last);
+                for i in &segment {
+                    seg_last.insert(i.key(), i.last);
+                }
                 segment.clear();
                 let before: usize = out.out.lock().unwrap().len();
                 let f = sink.flush();
@@ -558,6 +568,25 @@ fn check_worker(case: &Case) -> CaseResult {
                     return Ok(vec!["inconclusive-timeout"]);
                 }
                 n_flush += 1;
+                if ordered {
+                    let got = out.out.lock().unwrap().clone();
+                    for (k, want) in &seg_last {
+                        // aggregates emitted by this flush carry epoch n_flush - 1
+                        let mine: Vec<&Agg> = got
+                            .iter()
+                            .filter(|(e, a)| *e == n_flush as u64 - 1 && a.word.as_deref() == Some(k.0.as_str()) && a.n == Some(k.1 as u64))
+                            .map(|x| &x.1)
+                            .collect();
+                        vensure!(
+                            mine.len() == 1 && mine[0].last == Some(*want as u64),
+                            "agg:keep-last-wrong",
+                            "worker, one producer, flush {}: key {k:?} - the last value sent was {want}, the emitted aggregate(s) carry {:?}",
+                            n_flush - 1,
+                            mine.iter().map(|a| a.last).collect::<Vec<_>>()
+                        );
+                    }
+                    classes.push("worker-keep-last-checked");
+                }
                 // barrier: everything merged before the flush (all producers joined) is emitted
                 let emitted: u64 = out
                     .out
@@ -865,12 +894,12 @@ pub fn run(ctx: &mut Ctx) {
     ctx.explore(
         SubCfg::new(
             "c10-worker",
-            "the same steps through WorkerSink(KeyedAggregator) with 1-4 producer threads per segment (joined before each flush().await); flush interval 1 h (explicit flushes only) or 0 / 100 us / 2 ms (the worker's periodic flush races the merges; epochs are counted at the inner sink's real flushes). Oracle: when flush().await returns everything merged before it is in emitted aggregates (barrier); one aggregate per key per flush; union over all flushes == all inputs (nothing lost, nothing double counted); after the last handle is dropped the worker emits what it holds and its inner sink is dropped (the thread exits) before 1000 further flush() calls. Non-trivial = >=2 inputs share a key, >=2 flushes, >=2 keys",
-            if q { 500 } else { 15_000 },
+            "the same steps through WorkerSink(KeyedAggregator) with 1-4 producer threads per segment (joined before each flush().await); flush interval 1 h (explicit flushes only) or 0 / 100 us / 2 ms (the worker's periodic flush races the merges; epochs are counted at the inner sink's real flushes). Oracle: when flush().await returns everything merged before it is in emitted aggregates (barrier); one aggregate per key per flush; with one producer and no periodic flush the keep-last field of each aggregate is the last value sent for its key; union over all flushes == all inputs (nothing lost, nothing double counted); after the last handle is dropped the worker emits what it holds and its inner sink is dropped (the thread exits) before 1000 further flush() calls. Non-trivial = >=2 inputs share a key, >=2 flushes, >=2 keys",
+            if q { 1_500 } else { 30_000 },
         )
         .threads(ctx.tier.pick(4, 8))
         .shrink_iters(100)
-        .mandatory(&["worker", "multi-producer", "worker-periodic-flush-live"]),
+        .mandatory(&["worker", "multi-producer", "worker-periodic-flush-live", "worker-keep-last-checked"]),
         || {
             (prop::collection::vec(arb_step(), 0..50), any::<u8>()).prop_map(|(steps, producers)| Case {
                 kind: SinkKind::Worker,
